@@ -534,11 +534,21 @@ def r13_select_send(text, log, **kw):
                 raise Undecided("R13: select! send arm shape")
             resname = s.txt(sc + 2)
             b1 = sc + 4
-            if not (s.kind(b1) == "open" and s.txt(b1) == "{"):
-                raise Undecided("R13: select! send arm body must be a block")
-            b1c = s.closer(b1)
-            q = b1c + 1
-            if s.is_(q, ","):
+            if s.kind(b1) == "open" and s.txt(b1) == "{":
+                b1c = s.closer(b1)
+                q = b1c + 1
+                if s.is_(q, ","):
+                    q += 1
+            else:
+                # expression arm: runs to the top-level comma before `default`
+                q = b1
+                while q < c and not (s.is_(q, ",") and s.is_(q + 1, "default")):
+                    if s.kind(q) == "open":
+                        q = s.closer(q)
+                    q += 1
+                if q >= c:
+                    raise Undecided("R13: select! send arm has no terminating comma")
+                b1c = q - 1
                 q += 1
             if not (s.is_(q, "default") and s.is_(q + 1, "=>")):
                 raise Undecided("R13: select! default arm expected")
@@ -592,7 +602,31 @@ def r3_map_or_else(text, log, **kw):
     return _fix(text, step, log, "R3")
 
 
+# --- R4s: `x.iter().map(|p| E).sum()` -> accumulating loop ------------------------------------------------------------
+def r4_map_sum(text, log, acc="vx_sum", **kw):
+    def step(t):
+        s = Src(t)
+        for p in _find_method(s, "map"):
+            c = s.closer(p + 2)
+            if not (s.seq(p - 4, ".", "iter", "(", ")") and s.is_(c + 1, ".") and s.is_(c + 2, "sum") and s.is_(c + 3, "(") and s.closer(c + 3) == c + 4):
+                continue
+            cl = _closure(s, p + 2)
+            if not cl:
+                continue
+            pat, blo, bhi, _ = cl
+            d = p - 4
+            r = receiver_start(s, d)
+            recv = s.slice(r, d - 1)
+            body = s.slice(blo, bhi)
+            iv = _fresh()
+            repl = "{ let mut %s = 0;\nfor %s in 0..%s.len() { let %s = &%s[%s];\n%s += %s;\n}\n%s }" % (acc, iv, recv, pat, recv, iv, acc, body, acc)
+            return _edit(t, s, r, c + 4, repl)
+        return None
+    return _fix(text, step, log, "R4")
+
+
 RULES = {
+    "R4s": r4_map_sum,
     "R13": r13_select_send,
     "R3m": r3_map_or_else,
     "R3o": r3_result_map_ok,
